@@ -111,8 +111,9 @@ def cases(draw, tier="quick"):
             for g in cfg["grids"]:
                 g["nlow"], g["nmid"] = min(g["nlow"], 22), min(g["nmid"], 16)
             cfg["fine"] = False
-        if meta["scheme"] != "ZM-VFNS" and meta["pto"] == 2:
-            # massive NNLO kernels on 60-node grids are too expensive: keep the smaller adequate grids
+        if meta["scheme"] != "ZM-VFNS" and meta["pto"] == 2 and meta["heavyness"] != "light":
+            # massive NNLO kernels on 60-node grids are too expensive: keep the smaller adequate grids (the light component, whose
+            # only massive pieces are the cheap 'missing' corrections, keeps the fine ones)
             for g in cfg["grids"]:
                 g["nlow"], g["nmid"] = min(g["nlow"], 24), min(g["nmid"], 16)
             cfg["fine"] = False
